@@ -89,6 +89,9 @@ class _ShapeOps:
             return self.sc["callables"][fv]
         return UNKNOWN
 
+    def attr(self, value, name, node, env):
+        return self.sc.get("attrs", {}).get((value, name), UNKNOWN)
+
     # -- iteration
     @staticmethod
     def _base(v):
@@ -351,34 +354,83 @@ def r19_4(ctx) -> None:
     outs = _run(ctx, u, {"iscoroutinefunction": {"FUNC": True}}, {p: "FUNC"})
     got = {oc.returned if oc.terminal.kind == "exit" else ("raises", oc.raised) for oc in outs}
     ctx.check(got == {"FUNC"}, "R19.4", u, "sync", "[coroutine function] it is returned unchanged", witness=str(sorted(map(str, got))))
-    # anything else: the nested coroutine wrapper is returned
-    outs = _run(ctx, u, {"iscoroutinefunction": {"FUNC": False}}, {p: "FUNC"})
+    # anything else: the nested coroutine wrapper is returned.  The callable may itself be a
+    # functools.partial (FUNC = partial(INNER, ...)): what has to be called is FUNC, with its bound arguments
+    def returned_wrappers(unit, depth=0):
+        """what ``unit`` can return: nested definitions (units), 'PARAM' for its own argument, None for anything
+        else — looking through conditional expressions and one private factory function"""
+        out = []
+        nested = [x for x in unit.module.units.values() if x.parent is unit]
+        for r in own_nodes(unit.node):
+            if not isinstance(r, ast.Return) or r.value is None:
+                continue
+            todo = [r.value]
+            while todo:
+                v = todo.pop()
+                if isinstance(v, ast.IfExp):
+                    todo += [v.body, v.orelse]
+                elif isinstance(v, ast.Name) and v.id in unit.param_names():
+                    out.append("PARAM")
+                elif isinstance(v, ast.Name) and any(x.qualname.endswith("." + v.id) for x in nested):
+                    out.append(next(x for x in nested if x.qualname.endswith("." + v.id)))
+                elif isinstance(v, ast.Call) and depth < 2:
+                    fv = ctx.vals.expr(unit, v.func, None)
+                    ts = [ctx.pkg.lib_unit(a[1]) for a in fv if a[0] == "libfn"]
+                    if len(ts) == 1 and ts[0] is not None and ts[0].kind == "sync" and len(v.args) == 1 and norm(v.args[0]) == unit.param_names()[0]:
+                        out += [x for x in returned_wrappers(ts[0], depth + 1)]
+                    else:
+                        out.append(None)
+                else:
+                    out.append(None)
+        return out
+
+    found = [x for x in returned_wrappers(u) if x != "PARAM"]
     wrappers = []
-    for oc in outs:
-        rets = [n for n in oc.path if n.kind == "return"]
-        rv = rets[-1].info.get("value") if rets and oc.terminal.kind == "exit" else None
-        hit = [x for x in inner if isinstance(rv, ast.Name) and x.qualname.endswith("." + rv.id)]
-        if not any(x is (hit[0] if hit else None) for x in wrappers):
-            wrappers.append(hit[0] if hit else None)
+    for x in found:
+        if not any(x is y for y in wrappers):
+            wrappers.append(x)
     ok = len(wrappers) == 1 and wrappers[0] is not None and wrappers[0].kind == "coroutine"
     ctx.check(ok, "R19.4", u, "sync", "[other callable] one coroutine wrapper is returned")
     if not ok:
         return
     w = wrappers[0]
+    factory = w.parent  # sync() itself, or the private factory it delegates to
+    fp = factory.param_names()[0]
+    closures = {}
+    for is_partial in (False, True):
+        sc0 = {"iscoroutinefunction": {"FUNC": False, "INNER": False},
+               "isinstance": {("FUNC", "partial"): is_partial, ("INNER", "partial"): False},
+               "attrs": {("FUNC", "func"): "INNER"}}
+        try:
+            o2 = [oc for oc in _run(ctx, factory, sc0, {fp: "FUNC"}) if oc.terminal.kind == "exit"]
+        except AnalysisError:
+            o2 = []
+        closures[is_partial] = [{k: v for k, v in oc.env.items() if not k.startswith("@")} for oc in o2]
+    p = fp
     va = w.node.args.vararg.arg if w.node.args.vararg else None
     kw = w.node.args.kwarg.arg if w.node.args.kwarg else None
     for awaitable in (False, True):
-        ctx.count("sync_cells")
-        sc = {"callables": {"FUNC": "RESULT"}, "isinstance": {("RESULT", "Awaitable"): awaitable}}
-        outs = _run(ctx, w, sc, {p: "FUNC"})
-        want_trace = (("call", "FUNC", (f"*{va}",), ((None, kw),)),) + ((("await", "RESULT"),) if awaitable else ())
-        want_ret = ("val", "RESULT") if awaitable else "RESULT"
-        got = {(oc.env.get("@trace", ()), oc.returned) for oc in outs if oc.terminal.kind == "exit"}
-        bad = [oc for oc in outs if oc.terminal.kind != "exit"]
-        ctx.check(got == {(want_trace, want_ret)} and not bad, "R19.4", w, w.node.name,
-                  f"[{'awaitable' if awaitable else 'plain'} result] the target is called once with *args, **kwargs and its "
-                  f"result is {'awaited and the value returned' if awaitable else 'returned as is'}",
-                  witness=str(sorted(map(str, got))[:2]))
+        for is_partial in (False, True):
+            ctx.count("sync_cells")
+            sc = {"callables": {"FUNC": "RESULT", "INNER": "INNER-RESULT"}, "isinstance": {("RESULT", "Awaitable"): awaitable,
+                                                                                            ("INNER-RESULT", "Awaitable"): awaitable}}
+            got, bad = set(), []
+            # (the wrapper is a closure: it runs in the environment sync() had built when it was defined)
+            for closure in closures[is_partial] or [{}]:
+                env = dict(closure)
+                env[p] = "FUNC"
+                for oc in _run(ctx, w, sc, env):
+                    if oc.terminal.kind == "exit":
+                        got.add((oc.env.get("@trace", ()), oc.returned))
+                    else:
+                        bad.append(oc)
+            want_trace = (("call", "FUNC", (f"*{va}",), ((None, kw),)),) + ((("await", "RESULT"),) if awaitable else ())
+            want_ret = ("val", "RESULT") if awaitable else "RESULT"
+            ctx.check(got == {(want_trace, want_ret)} and not bad, "R19.4", w, w.node.name,
+                      f"[{'a partial object' if is_partial else 'a function'}, {'awaitable' if awaitable else 'plain'} result] the very "
+                      f"callable given to sync() is called once with *args, **kwargs and its result is "
+                      f"{'awaited and the value returned' if awaitable else 'returned as is'}",
+                      witness=str(sorted(map(str, got))[:2]))
     tries = [n for n in own_nodes(w.node) if isinstance(n, ast.Try) and n.handlers]
     ctx.check(not tries, "R19.4", w, tries[0] if tries else w.node.name, "the wrapper catches nothing (same exception as the target)")
     guard = [n for n in cfg.nodes if n.kind == "branch" and isinstance(n.ast, ast.Call) and norm(n.ast.func) == "callable"]
